@@ -122,8 +122,77 @@ def gen_loader(ctx):
     return ops
 
 
+# ---- round 5: a credential before and after its expiry; overlapping token requests
+EXP_OFFSETS = [-3600, -301, -120, -61, -60, -59, -45, -20, -5, -2, -1, 30, 120, 299]
+UIX_OFFSETS = [-3600, -120, -61, -60, -59, -45, -20, -5, -2, -1, 30, 3600]
+
+
+def gen_expiry(ctx):
+    """the same code / access token presented at several distances before and after its expiry (the code as the
+    authorization handler minted it 300 s before `exp`, the access token as the token endpoint mints it), with
+    right and with wrong credentials; nothing about these tokens but the clock differs from a fresh one"""
+    ops = []
+    for off in EXP_OFFSETS:
+        st = "exp%+d" % off
+        for place in ["header", "form"]:
+            ops.append("tok confidentialOne same right absent none same %s %s mint" % (st, place))
+            ops.append("tok publicOne same absent right S256 same %s %s mint" % (st, place))
+        ops.append("tok confidentialOne same right absent nochallenge same %s header mint" % st)
+        ops.append("tok publicOne same absent right plain same %s form mint" % st)
+        ops.append("tok confidentialOne same wrong absent none same %s header mint" % st)
+        ops.append("tok publicOne same absent wrong S256 same %s form mint" % st)
+        ops.append("tok confidentialOne other right absent none same %s header mint" % st)
+        ops.append("tok publicOne same absent right S256 diff %s form mint" % st)
+    grid = list(itertools.product(["bearer", "token_endpoint", "none"], UIX_OFFSETS, ["right", "wrong"], ["real", "foreign"],
+                                  ["none", "userinfo", "other"]))
+    if ctx.quick():
+        grid = [g for g in grid if g[0] == "bearer" or g[1] in (-20, 30)]
+    for typ, off, iss, signer, aud in grid:
+        ops.append("uix %s %d %s %s %s" % (typ, off, iss, signer, aud))
+    if not ctx.quick():
+        for _ in range(400):
+            ops.append("uix bearer %d right real %s" % (ctx.rng.choice([-1, 1]) * ctx.rng.randint(1, 400), ctx.rng.choice(["none", "userinfo"])))
+            ops.append("tok %s exp%+d %s mint" % (ctx.rng.choice(["confidentialOne same right absent none same", "publicOne same absent right S256 same"]),
+                                                  ctx.rng.choice([-1, 1]) * ctx.rng.randint(2, 298), ctx.rng.choice(["header", "form"])))
+    return ops
+
+
+# who may present a code in an overlapping pair: (present, secret, verifier, placement)
+RACE_PUBLIC = [("same", "absent", "right", "form"), ("same", "absent", "wrong", "form"), ("same", "absent", "absent", "form"),
+               ("other", "absent", "right", "form"), ("same", "absent", "challenge", "form"), ("otherType", "right", "absent", "header")]
+RACE_CONF = [("same", "right", "absent", "header"), ("same", "wrong", "absent", "header"), ("same", "absent", "absent", "form"),
+             ("other", "right", "absent", "header"), ("same", "right", "absent", "form"), ("otherType", "absent", "right", "form")]
+RACE_PRESENTER = {"confidentialOne": {"same": "confidentialOne", "other": "confidentialTwo", "otherType": "publicOne"},
+                  "publicOne": {"same": "publicOne", "other": "publicTwo", "otherType": "confidentialOne"}}
+
+
+def gen_race(ctx):
+    """two token requests for the same code overlap: the first is held at each of its log statements in turn (so also
+    inside the verifier check, between the signature check and the client check, …) while the second one is sent;
+    the legitimate presenter and every other presenter, in both orders"""
+    ops = []
+    wait = 300 if ctx.quick() else 600
+    for cc, method, pres in [("publicOne", "S256", RACE_PUBLIC), ("confidentialOne", "none", RACE_CONF)]:
+        firsts = pres[:2] if ctx.quick() else pres
+        for a, b in itertools.product(firsts, pres):
+            ops.append("race %s %s mint %s %s %d" % (cc, method, " ".join(a), " ".join(b), wait))
+        for a, b in [(pres[0], pres[1]), (pres[1], pres[0]), (pres[0], pres[0])]:
+            ops.append("race %s %s authz %s %s %d" % (cc, method, " ".join(a), " ".join(b), wait))
+        if not ctx.quick():
+            for m2 in ["plain", "nochallenge", "S256", "none"]:
+                if m2 != method:
+                    for a, b in itertools.product(pres[:2], pres):
+                        ops.append("race %s %s mint %s %s %d" % (cc, m2, " ".join(a), " ".join(b), wait))
+    return ops
+
+
 def truth_replay(o):
-    return ("slow " + o.split()[-1].split("-")[0]) if o.startswith("slow ") and len(o.split()) > 2 else o
+    """the op line behind a label (`slow`/`race` ops stand for several requests)"""
+    if o.startswith("slow ") and len(o.split()) > 2:
+        return "slow " + o.split()[-1].split("-")[0]
+    if o.startswith("race ") and " @" in o:
+        return o.split(" @")[0]
+    return o
 
 
 def un(h):
@@ -186,11 +255,11 @@ def drop(wire, keys):
 def run(ctx):
     facts = c.regen(ctx)
     c.prove(ctx)
-    ops = gen_loader(ctx) + gen_jw(ctx) + gen_az(ctx) + gen_ops(ctx)
+    ops = gen_loader(ctx) + gen_jw(ctx) + gen_race(ctx) + gen_expiry(ctx) + gen_az(ctx) + gen_ops(ctx)
     if ctx.replay:
         rp = json.load(open(ctx.replay))
         ops = [v["replay"]["op"] for v in rp.get("violations", []) if "op" in v.get("replay", {})] or ops[:100]
-        ops = list(dict.fromkeys(("slow " + o.split()[-1].split("-")[0]) if o.startswith("slow ") and len(o.split()) > 2 else o for o in ops))
+        ops = list(dict.fromkeys(truth_replay(o) for o in ops))
     impl, log, rc = run_harness_retry_c12(ctx, ops)
     if rc != 0 or len(impl) != len(ops):
         ctx.broken.append("harness TestVerifC12 did not complete (exit %d, %d/%d lines): %s" % (rc, len(impl), len(ops), log[-600:]))
@@ -202,6 +271,8 @@ def run(ctx):
     az_hist = {}
     # one op may stand for several token requests (delayed / repeated redemption)
     pairs = []
+    race_stat = {"schedules": 0, "second_had_to_wait": 0, "held_at": {}}
+    uix_ops, uix_model_ops, uix_expect, uix_meta, uix_hist = [], [], [], [], {}
     for o, line in zip(ops, impl):
         if o.startswith("slow "):
             if not line.startswith("slow | "):
@@ -215,6 +286,30 @@ def run(ctx):
                     label = "slow %s %s-built-deployment redemption-%d %s-ms-after-authorization" % (fh[1], fh[0], n, o.split()[1])
                     pairs.append((label, tl, {"client": fh[1], "nonce": NONCE, "scope": "openid", "auds": [un(fkv["aud"])] if fkv["aud"] != "-" else [],
                                               "tauth": int(fkv["tauth2"]), "exact": True, "replay": o}))
+            continue
+        if o.startswith("race "):
+            if not line.startswith("race | "):
+                ctx.broken.append("harness answered %r for %r" % (line[:200], o))
+                continue
+            rf = o.split()
+            for flow in line[7:].split(" ;; "):
+                parts = flow.split(" || ")
+                fkv = dict(x.split("=", 1) for x in parts[0].split())
+                at = c.unhexs(fkv["at"]) if fkv["at"] not in ("", "-") else None
+                race_stat["schedules"] += 1
+                race_stat["second_had_to_wait"] += int(fkv["waited"])
+                if fkv["parked"] == "1":
+                    race_stat["held_at"][at] = race_stat["held_at"].get(at, 0) + 1
+                for n, tl in enumerate(parts[1:3]):
+                    g = rf[4:8] if n == 0 else rf[8:12]
+                    label = "%s @%s-request-%s" % (o, "first" if n == 0 else "second",
+                                                   ("held-at-its-log-statement-%s(%s)-while-the-other-one-was-sent" % (fkv["k"], (at or "").replace(" ", "_")))
+                                                   if (n == 0 and fkv["parked"] == "1") else
+                                                   ("sent-while-the-first-was-held-at-its-log-statement-%s(%s)%s" % (
+                                                       fkv["k"], (at or "").replace(" ", "_"), ",finished-only-after-the-first-was-let-go" if fkv["waited"] == "1" else ""))
+                                                   if fkv["parked"] == "1" else "no-overlap")
+                    pairs.append((label, tl, {"client": RACE_PRESENTER[rf[1]].get(g[0], "?"), "nonce": NONCE, "scope": "openid", "auds": [],
+                                              "tauth": None, "replay": o}))
             continue
         pairs.append((o, line, None))
     for o, line, truth in pairs:
@@ -279,6 +374,26 @@ def run(ctx):
             line = tokpart
             truth = {"client": client, "nonce": nonce or "", "scope": scope or "", "auds": [aud] if aud else [],
                      "tauth": int(akv.get("tauth2", akv["tauth"])), "exact": "tauth2" in akv}
+        if oc.startswith("uix "):
+            if not line.startswith("uix ") or " | " not in line:
+                ctx.broken.append("harness answered %r for %r" % (line[:200], o))
+                continue
+            uhead, urest = line.split(" | ", 1)
+            ans = uhead.split()[1]
+            ukv = dict(x.split("=", 1) for x in urest.split() if "=" in x)
+            uw, _ = flat_wire(ukv["wire"])
+            if uw is None:
+                ctx.broken.append("access token payload is not an object for %r" % o)
+                continue
+            core = "%s %s 1:rsa RS256 %s RS256 %s" % (ukv["now"], hx(ISSUER), ukv["by"], uw)
+            uix_model_ops.append("ui " + core)
+            uix_expect.append("ok " + ans[3:] if ans.startswith("ok:") else "rej")
+            uix_ops.append("uij %s %s" % (core, ans[3:] if ans.startswith("ok:") else "-"))
+            uix_meta.append((o, line, json.loads(bytes.fromhex(ukv["wire"])), int(ukv["now"])))
+            f = oc.split()
+            hk = "uix:%s/%s:%s" % (f[1], "expired" if int(f[2]) < 0 else "valid", "answered" if ans.startswith("ok:") else "refused")
+            uix_hist[hk] = uix_hist.get(hk, 0) + 1
+            continue
         if " | " not in line:
             ctx.broken.append("harness answered %r for %r" % (line[:200], o))
             continue
@@ -367,6 +482,17 @@ def run(ctx):
     if ui_ops:
         um = c.run_driver(ctx, "model", ui_ops)
         c.diff_streams(ctx, "idpOpenIDCUserinfoHandler on released access tokens vs KM.Oidc.userinfo", ui_ops, ui_expect, um)
+    if uix_ops:
+        uxm = c.run_driver(ctx, "model", uix_model_ops)
+        c.diff_streams(ctx, "idpOpenIDCUserinfoHandler on access tokens around their expiry vs KM.Oidc.userinfo", [m[0] for m in uix_meta],
+                       uix_expect, [l if l.startswith("ok ") else ("rej" if l.startswith("rej") else l) for l in uxm])
+        uv = c.run_driver(ctx, "judge", uix_ops)
+        for (o, line, tokc, unow), v in zip(uix_meta, uv):
+            if v != "ok":
+                c.add_violation(ctx, "userinfo:" + (v.split(" ", 2)[2] if v.count(" ") >= 2 else v),
+                                "userinfo answered for a token the property excludes: %s; presented at %d (%+d s relative to its exp): %s" % (
+                                    v, unow, unow - tokc.get("exp", 0), json.dumps(tokc, sort_keys=True)),
+                                {"op": o, "impl": line, "judge": v, "access_token": tokc})
     if az_ops:
         azm = c.run_driver(ctx, "model", az_ops)
         c.diff_streams(ctx, "idpOpenIDCAuthorizationHandler (optional parameters) vs KM.Oidc.authorize", [a[0] for a in az_expect],
@@ -404,11 +530,16 @@ def run(ctx):
                                 {"op": o, "impl": line, "judge": v})
     for k, what, rp in late:      # the script's own ground-truth comparison, after the Lean judge's verdicts
         c.add_violation(ctx, k, what, rp)
+    def when(m):
+        try:
+            return " (presented at %s, code exp %s)" % (m[2]["now"], json.loads(bytes.fromhex(m[2]["wire"])).get("exp"))
+        except Exception:
+            return ""
     verdicts = c.run_driver(ctx, "judge", jops)
     for m, v in zip(meta, verdicts):
         if v != "ok":
-            c.add_violation(ctx, v.split(" ", 1)[1] if " " in v else v, "token endpoint %s for op %r" % (v, m[0]),
-                            {"op": m[0], "impl": m[3], "judge": v})
+            c.add_violation(ctx, v.split(" ", 1)[1] if " " in v else v, "token endpoint %s for op %r%s" % (v, m[0], when(m)),
+                            {"op": truth_replay(m[0]), "request": m[0], "impl": m[3], "judge": v})
     released = [m for m in meta if m[4] == "released"]
     ctx.coverage.update({
         "evaluations": len(meta) + sum(v for k, v in az_hist.items() if not k.startswith("az:code")),
@@ -424,6 +555,10 @@ def run(ctx):
         "signer_kinds": sorted(set(m[3]["signer"].split(":")[1] for m in jw_meta)),
         "released_with_audience": sum(1 for m in rel_meta if m[3].get("aud")),
         "userinfo_checked": len(ui_ops),
+        "overlapping_request_schedules": race_stat["schedules"], "overlap_second_request_had_to_wait": race_stat["second_had_to_wait"],
+        "overlap_first_request_held_at": dict(sorted((k or "-", v) for k, v in race_stat["held_at"].items())),
+        "codes_around_expiry": sum(1 for m in meta if " exp+" in m[0] or " exp-" in m[0]),
+        "access_tokens_around_expiry": len(uix_ops), "access_token_histogram": dict(sorted(uix_hist.items())),
         "pkce_switch": facts.get("c12", {}).get("pkce_switch"),
         "samples": [{"op": m[0], "impl": m[1][:160]} for m in meta[:2] + released[:3]],
     })
